@@ -44,6 +44,7 @@ K_NEGFLIP = "literal/integer-below-INT64_MIN-read-as-positive"
 K_NTOK = "parse/tokeniser-error-in-first-two-tokens-reported-as-N_TOK"
 K_LINCOMN = "parse/LINCOM-count-optional-before-version-7"
 K_BITOVF = "parse/BIT-range-check-overflows-int"
+K_METAARRAY = "parse/META-CARRAY-SARRAY-truncated-at-MAX_IN_COLS"
 
 
 def load_staged_findings(chk):
@@ -449,6 +450,21 @@ def line_cases(chk):
     return sorted(set(L))
 
 
+RESERVED_WORDS = ["VERSION", "ENDIAN", "PROTECT", "INCLUDE", "ENCODING", "META", "REFERENCE", "FRAMEOFFSET", "ALIAS", "HIDDEN", "NAMESPACE"]
+# the field types the parser lets an unslashed reserved word be a field NAME for, outside pedantic mode
+# ("check for a field spec masquerading as a directive", _GD_ParseDirective)
+MASQUERADE_TYPES = ["RAW", "LINCOM", "BIT", "LINTERP", "PHASE", "MULTIPLY", "SBIT", "POLYNOM", "STRING", "CONST"]
+
+
+def reserved_name_lines():
+    """lines whose field NAME is a reserved word without a slash: every word x every such type x token counts 3..n"""
+    tails = {"RAW": ["UINT8", "UINT8 1", "UINT8 1 2"], "LINCOM": ["a", "a 1 0", "1 a 1 0", "2 a 1 0 b 2 0"],
+             "BIT": ["a", "a 1", "a 1 2"], "LINTERP": ["a", "a /t"], "PHASE": ["a", "a 1"], "MULTIPLY": ["a", "a b"],
+             "SBIT": ["a", "a 1", "a 1 2"], "POLYNOM": ["a", "a 1", "a 1 2", "a 1 2 3"], "STRING": ["v", "v w"],
+             "CONST": ["UINT8", "UINT8 1", "FLOAT64 2.5"]}
+    return ["%s %s %s" % (w, ty, tl) for w in RESERVED_WORDS for ty in MASQUERADE_TYPES for tl in tails[ty]]
+
+
 def lines_part(chk, spec_exe, lit_exe, drv, problems):
     variant = probe_variant(lit_exe)
     lines = line_cases(chk)
@@ -464,8 +480,14 @@ def lines_part(chk, spec_exe, lit_exe, drv, problems):
                 if v < 6 and mode == "P" and ('"' in ln or "\\" in ln):
                     continue                       # no quoting before Version 6
                 cases.append((mode, v, pre, ln))
+        # outside pedantic mode an unslashed reserved word followed by a field type is a field NAME
+        if v in (0, 5, 7, 10) or chk.thorough:
+            for ln in reserved_name_lines():
+                cases.append(("Q", v, pre, ln))
+    for ln in reserved_name_lines():
+        cases.append(("D", 10, "a RAW UINT8 1\nb RAW UINT8 1\n\n", ln))      # default mode, no /VERSION at all
     inp1 = "".join("%sI %s\n" % (m, (pre + ln + "\n").encode().hex()) for m, v, pre, ln in cases).encode()
-    inp2 = "".join("%s %d %s\n" % (m, v, (ln + "\n").encode().hex()) for m, v, pre, ln in cases).encode()
+    inp2 = "".join("%s %d %s\n" % ("Q" if m == "D" else m, v, (ln + "\n").encode().hex()) for m, v, pre, ln in cases).encode()
     with ThreadPoolExecutor(max_workers=2) as ex:
         f1 = ex.submit(run_sharded, [spec_exe], inp1, 12)
         f2 = ex.submit(run_sharded, [drv, "line", variant], inp2, 4)
@@ -496,7 +518,7 @@ def lines_part(chk, spec_exe, lit_exe, drv, problems):
             n_err += 1
         else:
             n_ok += 1
-        if got == by_spec or (got == "-" and not ln.startswith("x ") and not by_spec.startswith("E")):
+        if got == by_spec or (got == "-" and ln.split()[0] in ("FILEFRAM", "INDEX") and not by_spec.startswith("E")):
             if got != by_impl and got != "-" and "model/parse" not in reported:
                 reported.add("model/parse")
                 chk.violation("model/parse", "correspondence broken: the line %r (Version %d %s) gives [%s], the model of the _GD_Parse* functions [%s]" % (
@@ -607,6 +629,46 @@ def scoping_part(chk, spec_exe, drv, problems):
     chk.cov["evaluations"] += len(cases)
     chk.cov["distinct_nontrivial"] += sum(1 for c in cases if expect(spec, c[0], c[1], c[2], c[3], c[6]))
     chk.cov["version_scope"] = {"cases": len(cases), "disagreements": nbad}
+
+
+# ------------------------------------------------------------------ CARRAY / SARRAY longer than MAX_IN_COLS tokens
+
+def array_part(chk, spec_exe, drv, problems):
+    """a CARRAY/SARRAY line may carry any number of elements (the parser re-tokenises the rest of the line in
+    chunks of MAX_IN_COLS): every element must arrive, whichever way the field is named (top level,
+    parent/child, /META parent child)"""
+    cases = []
+    for k in (1, 2, 8, 9, 10, 11, 12, 13, 14, 15, 20, 27, 28, 29, 40):
+        for kind in ("CARRAY UINT8", "CARRAY FLOAT64", "SARRAY"):
+            vals = " ".join(str(i % 200 + 1) for i in range(k))
+            for form, name in (("x %s %s", "top"), ("p/x %s %s", "slash"), ("/META p x %s %s", "meta")):
+                for mode, v in (("P", 10), ("Q", 10), ("P", 8 if kind != "SARRAY" else 10)):
+                    if kind == "SARRAY" and v < 10:
+                        continue
+                    cases.append((mode, v, kind, k, name, "/VERSION %d\np RAW UINT8 1\n" % v + form % (kind, vals) + "\n"))
+    rc, out, err = run_sharded([spec_exe], "".join("%sI %s\n" % (m, txt.encode().hex()) for m, v, kind, k, name, txt in cases).encode(), 4)
+    ol = out.splitlines()
+    if rc != 0 or len(ol) != len(cases):
+        problems.append("array harness failed rc=%d lines=%d/%d %s" % (rc, len(ol), len(cases), err[-300:]))
+        return
+    nbad = 0
+    for (m, v, kind, k, name, txt), l in zip(cases, ol):
+        o = parse_spec_out(l)
+        dump = l.split(" X:", 1)[1] if " X:" in l else "?"
+        if kind == "SARRAY":
+            want = "SARRAY:" + ",".join(str(i % 200 + 1).encode().hex() for i in range(k))
+        else:
+            want = "CARRAY:%x:%d" % (1 if "UINT8" in kind else 0x88, k)
+        if o["C"] != 0 or o["E"] != 0 or dump != want:
+            nbad += 1
+            if nbad == 1:
+                chk.violation(K_METAARRAY if name == "meta" else "array/%s/%s/%d" % (kind.split()[0], name, k),
+                              "the line %r defines %d elements; gd_entry/gd_get_sarray show [%s] (callbacks %s)" % (txt.splitlines()[2][:60] + " ...", k, dump[:80], o["cb"]),
+                              {"kind": "array-length", "format_file": txt, "observed": l, "expected": want,
+                               "how": "printf '%sI %s\\n' | <harness/C08/spec>" % (m, txt.encode().hex())}, found=True)
+    chk.cov["evaluations"] += len(cases)
+    chk.cov["distinct_nontrivial"] += sum(1 for c in cases if c[3] > 11)
+    chk.cov["long_arrays"] = {"cases": len(cases), "disagreements": nbad}
 
 
 # ------------------------------------------------------------------ callback protocol
@@ -942,6 +1004,7 @@ def main():
     callback_part(chk, spec_exe, drv, problems)
     lines_part(chk, spec_exe, lit_exe, drv, problems)
     scoping_part(chk, spec_exe, drv, problems)
+    array_part(chk, spec_exe, drv, problems)
     chk.cov["rule"] = ("tokeniser: every string of the listed lengths over the listed alphabets (exhaustive enumeration, both dialects: Version 5 and Version 10) "
                        "through gd_strtok (token sequence + error) and one _GD_Tokenise call with MAX_IN_COLS (tokens, suberror, *pos), plus generated lines built from "
                        "escape/quote/whitespace/comment pieces incl. bytes >= 0x80, embedded LF and > 14 tokens; non-trivial = Version >= 6 strings containing a backslash, "
